@@ -51,7 +51,7 @@ const RUNTIME_ITEMS: [(&'static str, &'static str); 4] = [
     ("P", "function(a){return typeof a==='function'?a:()=>{}}"),
 ];
 
-const EXTRA_RUNTIME_ITEMS: [(&'static str, &'static str); 4] = [
+const EXTRA_RUNTIME_ITEMS: [(&'static str, &'static str); 5] = [
     (
         "a",
         "function(a){for(var i=0;i<a.length;i++)if(a[i])return a}",
@@ -70,6 +70,11 @@ const EXTRA_RUNTIME_ITEMS: [(&'static str, &'static str); 4] = [
     (
         "d",
         "function(a){return typeof a==='string'?Array.from(a):a}",
+    ),
+    // an l-value path extended by further members (`null` stays `null`: no path)
+    (
+        "e",
+        "function(a,b){return a&&b?a.concat(b):a}",
     ),
 ];
 
